@@ -281,6 +281,7 @@ func abandon(tr interface{ Close() error }, d *env.Dialer, calls *[]*call) {
 	}
 	for i := 0; i < d.NumConns(); i++ {
 		d.ImplEnd(i).Commit()
+		d.ImplEnd(i).ReleaseClose()
 	}
 	go tr.Close()
 	wait()
